@@ -574,6 +574,31 @@ def c17_special(pid, prop, tier, seed, b):
                     len(md), len(outs[0]), [x for x in md if x not in outs[0]][:3], [x for x in outs[0] if x not in md][:3])]))
     for d in set(r['troot'] for r in runs):
         shutil.rmtree(d, ignore_errors=True)
+    # the coordinator of fastwalk.Walk as translated from the source (Gen/GenFastwalk.v): every schedule of
+    # small trees is explored in the model; a returned state that has not walked every directory is a
+    # failing history of the model (theorem fastwalk_complete covers all trees and schedules when it checks)
+    shapes = [([-1], '0'), ([-1, 0], '00'), ([-1, 0, 1], '000'), ([-1, 0, 0], '000'), ([-1, 0, 0, 2], '0000'),
+              ([-1, 0, 0, 2, 2, 4], '000000'), ([-1, 0, 0, 2, 2, 4], '001000'), ([-1, 0, 1, 2, 3], '00000'),
+              ([-1, 0, 0, 0, 1, 1], '000000'), ([-1, 0, 1, 1, 0, 4], '010000')]
+    for _ in range(4 if tier == 'quick' else 40):
+        n = rng.randint(2, 6)
+        ps = [-1] + [rng.randint(max(0, i - 3), i - 1) for i in range(1, n)]
+        shapes.append((ps, ''.join(rng.choice('0001') for _ in range(n))))
+    fw_lines, fw_cases = [], []
+    for ps, sk in shapes:
+        for nw, cap in ([(1, 1), (2, 1), (2, 2)] + ([(3, 2)] if len(ps) <= 4 else [])):
+            fw_lines.append(line('fastwalk', nw, cap, 400000, ','.join(map(str, ps)), sk))
+            fw_cases.append(dict(line=fw_lines[-1], text='fastwalk coordinator (translated from fastwalk.go), every schedule: workers=%d buffer=%d tree parents=%r skip=%s' % (nw, cap, ps, sk),
+                                 shape='fastwalk-model:%d' % len(ps), meta=dict(parents=ps, skips=sk, nw=nw, cap=cap), nontrivial=len(ps) > 1, args=[], op='fastwalk'))
+    fw_out = infra.run_driver(V + '/bin/mldriver', fw_lines)
+    for c, o in zip(fw_cases, fw_out):
+        c['model'] = o[:600]
+        cases.append(c)
+        impl_lines.append('MODEL-ONLY')
+        if o.startswith('OK incomplete'):
+            failures.append((c, ['in the model of the coordinator as the source now reads, a schedule returns before every directory is read: ' + o[3:600]]))
+        elif not o.startswith(('OK complete', 'OUTOFFUEL')):
+            disagreements.append((c, ['the model driver did not evaluate the coordinator: ' + o[:200]]))
     return cases, impl_lines, failures, disagreements, dict()
 
 
